@@ -79,7 +79,7 @@ def run(ctx):
 
     # real runs: (config, runs, deep recursions, direct precompile calls per address)
     plan = [("a", 700, 4, 4), ("b", 300, 0, 1), ("c", 300, 0, 1)] if quick else \
-           [("a", 3000, 8, 40), ("a", 3000, 4, 0), ("b", 2500, 4, 10), ("c", 2500, 4, 10)]
+           [("a", 8000, 8, 40), ("a", 8000, 4, 0), ("b", 7000, 4, 10), ("c", 7000, 4, 10)]
     argvs, traces, tables = [], [], []
     for k, (cfg, runs, deep, pre) in enumerate(plan):
         tp = os.path.join(ctx.scratch, "trace%d.ndjson" % k)
